@@ -9,7 +9,7 @@
    PARTIAL: conservation is proved for payments and swaps (the only value-moving primitives besides
    cw20 mint/burn); "LP supply changes only by provision/withdrawal" is given by same_config in
    C02_settlement (swaps), C04_sys and C05_supply, and monitored on the real contracts. *)
-From HT Require Import Base.Prelude Num.Arith Amm.Formulas Amm.Guards World.World Proofs.LedgerProofs Proofs.FrameProofs Proofs.AuthProofs.
+From HT Require Import Base.Prelude Num.Arith Amm.Formulas Amm.Guards World.World World.Observe Proofs.LedgerProofs Proofs.FrameProofs Proofs.AuthProofs Proofs.WFProofs Proofs.ReachProofs.
 
 Theorem C07_frame : forall w o w', (forall q, w_next w <= q -> w_tokens w q = None) ->
   exec w o = Ok w' -> frame (touched w o) w w'.
@@ -43,6 +43,29 @@ Proof. exact pair_swap_conserves. Qed.
 Theorem C07_failed_tx_unchanged : forall w o e, exec w o = Err e -> step w o = w.
 Proof. exact step_failed_unchanged. Qed.
 
+(* history level: the freshness hypothesis holds in every reachable world.  [WF] is the structural
+   invariant (unallocated addresses hold no contract; every pair has its own LP token minted only by it,
+   two different assets neither of which is the LP token, live asset tokens, commission <= 1, the
+   factory as its factory); it holds for any world without pairs and is preserved by EVERY operation,
+   hence by every history (induction over [run]). *)
+Theorem C07_WF_start : forall w, (forall p, w_pairs w p = None) -> (forall q, w_next w <= q -> w_tokens w q = None) -> WF w.
+Proof. exact WF_no_pairs. Qed.
+(* non-vacuity: the initial world of every correspondence history satisfies it *)
+Theorem C07_WF_harness_start : forall L ubal fbal tdec, WF (init_world L ubal fbal tdec).
+Proof. exact init_world_WF. Qed.
+Theorem C07_WF_preserved : forall w o w', WF w -> exec w o = Ok w' -> WF w'.
+Proof. exact exec_preserves_WF. Qed.
+Theorem C07_WF_history : forall ops w, WF w -> WF (run w ops).
+Proof. exact run_preserves_WF. Qed.
+Theorem C07_frame_reachable : forall w0 w o w',
+  WF w0 -> reachable w0 w -> exec w o = Ok w' -> frame (touched w o) w w'.
+Proof. exact exec_frame_reachable. Qed.
+
+Print Assumptions C07_WF_start.
+Print Assumptions C07_WF_harness_start.
+Print Assumptions C07_WF_preserved.
+Print Assumptions C07_WF_history.
+Print Assumptions C07_frame_reachable.
 Print Assumptions C07_frame.
 Print Assumptions C07_frame_unconditional.
 Print Assumptions C07_factory_moves_nothing.
